@@ -54,7 +54,9 @@ def build(race=False):
     open(os.path.join(mod, "go.mod"), "w").write(gomod)
     shutil.copy(os.path.join(C.REPO, "go.sum"), os.path.join(mod, "go.sum"))
     binp = os.path.join(d, "otap.test")
-    rc, out = C.sh(["go", "test", "-c", "-o", binp] + (["-race"] if race else []) + ["."], cwd=mod, env=C.GOENV, timeout=1200)
+    # the stream-map projection (Stream.tla conformance) exists only in trees that carry the verif-tagged file
+    tags = ["-tags", "verif"] if os.path.exists(os.path.join(C.REPO, "pkg/otel/arrow_record/verif_on.go")) else []
+    rc, out = C.sh(["go", "test", "-c", "-o", binp] + tags + (["-race"] if race else []) + ["."], cwd=mod, env=C.GOENV, timeout=1200)
     if rc != 0:
         raise C.Inconclusive("otap harness build failed:\n" + out[-4000:])
     return binp
@@ -86,7 +88,8 @@ def execute(plan, shards=8, timeout=1500, binp=None, test="TestPlan", extra_env=
     outs = [os.path.join(d, "trace%d.ndjson" % s) for s in range(shards)]
     notes = []
     def one(s):
-        rc, out = run_shard(binp, planp, s, shards, outs[s], timeout, test=test, extra_env=extra_env)
+        env = dict(extra_env or {}, VERIF_STREAM_OUT=outs[s] + ".stream")
+        rc, out = run_shard(binp, planp, s, shards, outs[s], timeout, test=test, extra_env=env)
         if rc != 0 and "DATA RACE" in out:
             notes.append({"shard": s, "kind": "race", "output": out[out.find("WARNING: DATA RACE"):][:3000]})
             with open(outs[s], "a") as fh:
@@ -346,3 +349,118 @@ def dictionary_mc(quick):
             out.append({"cols": r[0], "caps": r[1], "thr": "%d/%d" % (r[2], r[3]), "maxN": r[4], "batches": r[5],
                         "distinct": x["distinct"], "generated": x["generated"]})
     return states, gen, out, issues
+
+# ------------------------------------------------------------------ Stream.tla: the payload-level producer/consumer protocol
+
+STREAM_MUTANTS = ["MutRetireBySignal", "MutNoRetire", "MutNilRelease", "MutLenientCount", "MutSkipUnknown"]
+
+def _stream_cfg(related, batches, faults, levels=(1, 2), mutant=None):
+    lines = ["SPECIFICATION MCSpec", "CONSTANTS", '  Signals = {"t", "l"}', "  Related = {%s}" % ", ".join('"%s"' % r for r in related),
+             "  MainOf <- MCMainOf", "  Family <- MCFamily", "  KnownOf <- MCKnownOf", "  Singletons <- MCSingletons", '  Foreign = "X"',
+             "  MaxFaults = %d" % faults, "  Levels = {%s}" % ", ".join(map(str, levels)), "  MaxBatches = %d" % batches]
+    for m in STREAM_MUTANTS:
+        lines.append("  %s = %s" % (m, "TRUE" if m == mutant else "FALSE"))
+    lines.append("INVARIANTS NoPanic NoSilentLoss HealthyOK JudgedCleanInSequence Sync IdDenotesOne NoReuse SchemaFirst MainFirst "
+                 "OncePerType LiveBound ConsumerBound")
+    lines.append("CHECK_DEADLOCK FALSE")
+    return "\n".join(lines) + "\n"
+
+def stream_mc(quick):
+    """Exhaustive check of Stream.tla (producer / faults / consumer) plus one run per specification mutant: each mutant
+    must violate an invariant, which shows the invariants are not vacuous on the bounded instance."""
+    plans = [("R,Q b2 f2", ("R", "Q"), 2, 2), ("R b3 f2", ("R",), 3, 2)] if quick else [("R,Q b3 f2", ("R", "Q"), 3, 2), ("R b4 f2", ("R",), 4, 2),
+                                                                                       ("R,Q b2 f3", ("R", "Q"), 2, 3)]
+    res = {"configs": [], "distinct": 0, "generated": 0, "wall": 0.0, "problem": None, "mutants": {}}
+    def one(p):
+        name, rel, nb, nf = p
+        return name, C.run_tlc(SPEC, "MC_Stream", _stream_cfg(rel, nb, nf), workers=5 if quick else 8, timeout=600 if quick else 5400)
+    def mut(m):
+        return m, C.run_tlc(SPEC, "MC_Stream", _stream_cfg(("R",), 3, 2, mutant=m), workers=2, timeout=600)
+    with ThreadPoolExecutor(max_workers=3) as pool:
+        fs = [pool.submit(one, p) for p in plans]
+        ms = [pool.submit(mut, m) for m in STREAM_MUTANTS]
+        for f in fs:
+            name, r = f.result()
+            C.drop_scratch(r["dir"])
+            res["configs"].append({"name": name, "distinct": r["distinct"], "generated": r["generated"], "depth": r["depth"],
+                                   "wall_s": round(r["wall"], 1), "violated": r["violated"], "error": r["error"]})
+            res["distinct"] += r["distinct"]
+            res["generated"] += r["generated"]
+            res["wall"] += r["wall"]
+            if r["violated"] or r["error"]:
+                res["problem"] = "%s: %s" % (name, r["violated"] or r["error"])
+        for f in ms:
+            m, r = f.result()
+            C.drop_scratch(r["dir"])
+            res["mutants"][m] = r["violated"] or ("error:" + str(r["error"]) if r["error"] else None)
+            if not r["violated"]:
+                res["problem"] = res["problem"] or "specification mutant %s violates no invariant (vacuity)" % m
+    return res
+
+_STREAMTRACE_CFG = """SPECIFICATION TSpec
+CONSTANTS
+  TraceFile = "stream.ndjson"
+  Signals <- TSignals
+  MainOf <- TMainOf
+  Related <- TRelated
+  KnownOf <- TKnownOf
+  Singletons <- TSingle
+  Family <- TFamily
+  Foreign = "UNKNOWN"
+  MaxFaults = 0
+  MutRetireBySignal = FALSE
+  MutNoRetire = FALSE
+  MutNilRelease = FALSE
+  MutLenientCount = FALSE
+  MutSkipUnknown = FALSE
+CONSTRAINT HW
+INVARIANT TraceInv
+POSTCONDITION Report
+CHECK_DEADLOCK FALSE
+"""
+
+def stream_conformance(outs, max_drift=6, timeout=900):
+    """Validates the recorded Produce/Consume steps (the .stream file of every shard) against Stream.tla with TLC.
+    Returns dict(streams, events, accepted, drift=[{stream, line, event}], invariant=...).  A stream the specification does
+    not explain is reported and dropped, and the rest is validated again."""
+    d = C.scratch("strtrace.")
+    lines = []
+    for o in outs:
+        sp = o + ".stream"
+        if os.path.exists(sp):
+            with open(sp) as fh:
+                for line in fh:
+                    lines.append((os.path.basename(o), json.loads(line)))
+    res = {"streams": len({(o, e["tr"]) for o, e in lines}), "events": len(lines), "accepted": 0, "drift": [], "invariant": None, "wall": 0.0}
+    if not lines:
+        C.drop_scratch(d)
+        return res
+    dropped = set()
+    for attempt in range(max_drift + 1):
+        cur = [(o, e) for o, e in lines if (o, e["tr"]) not in dropped]
+        path = os.path.join(d, "stream.ndjson")
+        with open(path, "w") as fh:
+            for o, e in cur:
+                fh.write(json.dumps(e) + "\n")
+        r = C.run_tlc(SPEC, "MC_StreamTrace", _STREAMTRACE_CFG, workers=1, timeout=timeout, files={"stream.ndjson": path})
+        res["wall"] += r["wall"]
+        m = re.search(r'<<"STREAMTRACE-HW", (\d+), (\d+)>>', r["out"])
+        C.drop_scratch(r["dir"])
+        if r["violated"]:
+            res["invariant"] = r["violated"]
+        if not m and not r["violated"]:
+            raise C.Inconclusive("StreamTrace did not finish:\n" + r["out"][-3000:])
+        hw = int(m.group(1)) if m else 0
+        if m and hw > len(cur) and not r["violated"]:
+            res["accepted"] = len({(o, e["tr"]) for o, e in cur})
+            break
+        # the line the specification could not step over (or the one at which an invariant broke)
+        idx = min(max(hw, 1), len(cur)) - 1
+        o, e = cur[idx]
+        res["drift"].append({"stream": e["tr"], "shard": o, "line": idx + 1, "event": {k: e[k] for k in ("ev", "k", "sig", "oc", "n", "x", "pl", "fp", "cs", "ps")},
+                             "invariant": r["violated"]})
+        dropped.add((o, e["tr"]))
+    else:
+        res["accepted"] = res["streams"] - len(dropped)
+    C.drop_scratch(d)
+    return res
